@@ -17,7 +17,7 @@ LEVEL_TEXT["C11"] = (
 
 PROPS["C11"] = {
     "gen": [],
-    "lean_props": "DspVerif.Props.C11",
+    "lean_props": ["DspVerif.Props.C11", "DspVerif.Props.C11More"],
     "harness": [{"src": "c11.cpp", "cfg": "rel", "tol": {"*": (1e-12, 0.0)}},
                 {"src": "c11.cpp", "cfg": "asan", "tol": {"*": (1e-12, 0.0)}, "tiers": ["thorough"]}],
     "rule": "windows: every family x every length 3..512 (quick 3..96) + log-uniformly sampled lengths to 1e5 (incl. 99999, 100000) x both variants (tukey/kaiser: symmetric only) x "
